@@ -134,6 +134,26 @@ def confirm_lex_failure(P, name, d, f, r):
             if any(b < a for a, b in zip(offs, offs[1:])):
                 bad = f'call #{k}: read offsets decrease: {offs[:24]}'
                 break
+        if bad is None and 'byte loads go backwards' in f['what']:
+            # bytes examined through a multi-byte read and examined again through a later read that starts below them: the
+            # native trace shows read operations, not which bytes of a chunk were tested, so the path's claim "byte a was
+            # examined, then byte b < a" is confirmed by a read covering a that precedes, in the same call, a read covering b
+            # that starts below a
+            import re as _re
+            m = _re.search(r'\[([0-9, ]+)\]', f['what'])
+            lds = [int(x) for x in m.group(1).split(',')] if m else []
+            pair = next(((a, b) for a, b in zip(lds, lds[1:]) if b < a), None)
+            if pair:
+                a, b = pair
+                for k, rs in enumerate(reads):
+                    succ = [(o, max(1, n)) for o, n in rs if o + max(1, n) <= len(data)]
+                    for i, (o, n) in enumerate(succ):
+                        if o <= a < o + n and any(o2 <= b < o2 + n2 and o2 < a for o2, n2 in succ[i + 1:]):
+                            bad = (f'call #{k}: byte {a} is read by ({o},{n}) and byte {b} is read again afterwards within the same '
+                                   f'match attempt: {succ[:16]}')
+                            break
+                    if bad:
+                        break
         if bad is None:
             # read count bound per call (3 * (span of offsets + 1) + 3), items start: no read below the previous end
             prev_end = r['start']
@@ -149,6 +169,25 @@ def confirm_lex_failure(P, name, d, f, r):
                     prev_end = items[k][2]
         info['mismatch'] = bad
         return (bad is not None), info
+    if 'no callback ran although the winning pattern carries one' in f['what']:
+        # a callback that did not run is not visible in a token stream unless it would have rejected, bumped or skipped:
+        # the native build with `--cfg cb_log` makes every corpus callback log its invocation and the span it saw
+        import re as _re
+        key = (name, cfg, profile, 'cblog')
+        if key not in _native:
+            _native[key] = pipeline.build_native(name, P.usable, cfg, profile, cblog=True)
+        items, panicked, raw = pipeline.native_run(_native[key], d.id, data, partial=r.get('partial', False), start=r['start'])
+        m = _re.match(r'(skip|token) (\d+)\.\.(\d+)', f['what'])
+        cbs = pipeline.native_run.last_cbs
+        info['native'] = items
+        info['native_callbacks'] = cbs[:12]
+        ss, ee = int(m.group(2)), int(m.group(3))
+        ran = [c for c in cbs if c[1] == ss]
+        conc = ref.Concrete(P.tables[d.id], d.utf8)
+        st = conc.step(data, ss) if ss <= len(data) else ('none',)
+        info['mismatch'] = None if ran else f'native run: no corpus callback was invoked for the match {ss}..{ee} (callback log: {cbs[:6]})'
+        info['reference_step'] = repr(st)[:200]
+        return (not ran), info
     binary = native_binary(P, name, cfg, profile)
     ubkind = f['what'].startswith(('out-of-bounds', 'reference to out-of-bounds', 'ptr::add', 'str::get_unchecked',
                                    '<[u8]>::get_unchecked'))
@@ -345,6 +384,7 @@ def lex_family(prop, tier, seed, *, relevant, select, name, cfgs, N, starts, bud
     confirmed = 0
     unconfirmed = 0
     spin_replays = spin_skipped = 0
+    benign = []
     for d, f, r in fails:
         sig = (d.id, r['cfg'], f['what'].split(':')[0][:40], r['start'])
         if sig in seen:
@@ -364,6 +404,12 @@ def lex_family(prop, tier, seed, *, relevant, select, name, cfgs, N, starts, bud
         info['property'] = prop
         if partial and ok is None and not f['what'].startswith(('out-of', 'reference to', 'ptr::add')):
             ok = post(P, d, f, r, info) if post else True
+        if ok == 'benign':
+            # stricter-than-stated symbolic obligation (a skipped run committed in pieces) without any observable effect on
+            # the item stream for the continuations tried: counted in the evidence, neither a violation nor an engine error
+            benign.append({'def': d.id, 'cfg': r['cfg'], 'what': f['what'], 'input_hex': info['input_hex'],
+                           'confirmation': info.get('confirmation')})
+            continue
         if ok is False:
             unconfirmed += 1
             log(f'ENGINE: model for `{f["what"]}` on {d.id}/{r["cfg"]} did not reproduce natively '
@@ -402,6 +448,7 @@ def lex_family(prop, tier, seed, *, relevant, select, name, cfgs, N, starts, bud
         'functions_encoded': sorted(fns)[:400], 'functions_encoded_count': len(fns), 'stubs': sorted(builtins),
         'failures_confirmed_natively': confirmed, 'models_not_reproduced': unconfirmed,
         'spinning_models_not_replayed': spin_skipped, 'passing_leaf_samples_vs_native': sample_cov,
+        'skip_commits_without_observable_effect': benign[:10],
         'unexpected_verdicts': [d.id for d in P.unexpected],
         'build_s': P.build_s, 'prepare_s': P.prep_s, 'explore_s': explore_s,
         'checker_cmd': f'./check {prop} --tier {tier}',
@@ -458,9 +505,17 @@ def sel_for(tier, *tags):
     return sel_tags()
 
 
-LONG_QUICK = (('kw_ident', 17), ('long_loop', 72), ('neg_loop_bytes', 20), ('long_ident', 20), ('long_float', 20), ('long_skip', 20))
+def sel_with(sel, *tags):
+    def f(defs):
+        out = sel(defs)
+        have = {d.id for d in out}
+        return out + [d for d in defs if d.expect == 'accept' and any(t in d.tags for t in tags) and d.id not in have]
+    return f
+
+
+LONG_QUICK = (('kw_ident', 17), ('long_loop', 72), ('neg_loop_bytes', 20), ('long_ident', 20), ('long_float', 20), ('long_skip', 20), ('long_lit', 20))
 LONG_THOROUGH = (('kw_ident', 17), ('holes', 17), ('long_loop', 72), ('long_loop', 136), ('neg_loop_bytes', 28),
-                 ('long_ident', 28), ('long_float', 20), ('long_skip', 28))
+                 ('long_ident', 28), ('long_float', 20), ('long_skip', 28), ('long_lit', 24))
 # (definitions with loops over multi-byte characters or several interacting loops -- strings, numbers, nested_rep1, skips --
 # were tried at 17-20 bytes: their path count is exponential in the run length, they used 60 % of the thorough tier's time
 # only to fall back to 9-13 bytes; they stay at the tier's N)
@@ -475,8 +530,9 @@ def c01(tier, seed):
         shutil.rmtree(d, ignore_errors=True)
         os.environ['VERIF_EXPORT_SMT'] = d
     hook = {}
-    rc = lex_family('C01', tier, seed, relevant={'C01'}, select=sel_for(tier), name='lex',
-                    long_defs=(('long_loop', 40), ('long_ident', 20), ('long_float', 20), ('long_skip', 20)) if tier == 'quick' else LONG_THOROUGH, evidence_hook=hook,
+    # the whole byte-class x state-shape family runs in both tiers of C01 (the other checks take its `quick` subset)
+    rc = lex_family('C01', tier, seed, relevant={'C01'}, select=sel_with(sel_for(tier), 'cls'), name='lex',
+                    long_defs=(('long_loop', 40), ('long_ident', 20), ('long_float', 20), ('long_skip', 20), ('long_lit', 20)) if tier == 'quick' else LONG_THOROUGH, evidence_hook=hook,
                     validate_samples=3, **tp)
     ev = hook['ev']
     if tier != 'quick':
@@ -497,7 +553,7 @@ def c02(tier, seed):
     tp = tier_params(tier)
     # long runs: consumption and error-span obligations where block-wise loops (8/16-byte chunks) come into play
     return lex_family('C02', tier, seed, relevant={'C02'}, select=sel_for(tier, 'unicode'), name='lex',
-                      long_defs=(('long_loop', 24), ('neg_loop_bytes', 20), ('long_ident', 20), ('long_float', 20), ('long_skip', 20)) if tier == 'quick' else LONG_THOROUGH, **tp)
+                      long_defs=(('long_loop', 24), ('neg_loop_bytes', 20), ('long_ident', 20), ('long_float', 20), ('long_skip', 20), ('long_lit', 20)) if tier == 'quick' else LONG_THOROUGH, **tp)
 
 
 def with_rejects(sel, *tags):
@@ -516,7 +572,7 @@ def c03(tier, seed):
     return lex_family('C03', tier, seed, relevant={'C03'}, select=with_rejects(sel_for(tier), 'empty'), name='lex',
                       acceptance=acceptance_empty, stream_defs=STREAM_QUICK if tier == 'quick' else STREAM_THOROUGH,
                       stream_N=4 if tier == 'quick' else 5,
-                      long_defs=(('long_loop', 24), ('long_ident', 20), ('long_float', 20), ('long_skip', 20)) if tier == 'quick' else LONG_THOROUGH, **tp)
+                      long_defs=(('long_loop', 24), ('long_ident', 20), ('long_float', 20), ('long_skip', 20), ('long_lit', 20)) if tier == 'quick' else LONG_THOROUGH, **tp)
 
 
 def c04(tier, seed):
@@ -524,7 +580,7 @@ def c04(tier, seed):
     from .accept_checks import acceptance_utf8
     return lex_family('C04', tier, seed, relevant={'C04'},
                       select=with_rejects(lambda ds: [d for d in sel_for(tier, 'unicode')(ds) if d.utf8], 'nonutf8'), name='lex',
-                      acceptance=acceptance_utf8, long_defs=(('long_ident', 20), ('long_float', 20), ('long_skip', 20),) if tier == 'quick' else (('long_ident', 28), ('long_float', 20), ('long_skip', 28)),
+                      acceptance=acceptance_utf8, long_defs=(('long_ident', 20), ('long_float', 20), ('long_skip', 20), ('long_lit', 20),) if tier == 'quick' else (('long_ident', 28), ('long_float', 20), ('long_skip', 28), ('long_lit', 24)),
                       **tp)
 
 
@@ -614,11 +670,11 @@ def c20(tier, seed):
     if tier == 'quick':
         tpp['starts'] = (0, 1)
     rcp = lex_family('C20', tier, seed, relevant={'C20'}, select=lambda ds: [d for d in sel(ds) if 'loop' in d.tags], name='lexp',
-                     partial=True, long_defs=(('long_ident', 20), ('long_float', 20), ('long_loop', 24)), evidence_hook=hook_p, **tpp)
+                     partial=True, long_defs=(('long_ident', 20), ('long_float', 20), ('long_loop', 24), ('long_lit', 20)), evidence_hook=hook_p, **tpp)
     hook = {}
     rc = lex_family('C20', tier, seed, relevant={'C20'}, select=sel, name='lex',
-                    long_defs=(('long_loop', 72), ('neg_loop_bytes', 20), ('long_ident', 24), ('long_float', 20), ('long_skip', 24)) if tier == 'quick' else
-                    (('long_loop', 72), ('long_loop', 136), ('kw_ident', 17), ('neg_loop_bytes', 28), ('long_ident', 28), ('long_float', 20), ('long_skip', 28)),
+                    long_defs=(('long_loop', 72), ('neg_loop_bytes', 20), ('long_ident', 24), ('long_float', 20), ('long_skip', 24), ('long_lit', 20)) if tier == 'quick' else
+                    (('long_loop', 72), ('long_loop', 136), ('kw_ident', 17), ('neg_loop_bytes', 28), ('long_ident', 28), ('long_float', 20), ('long_skip', 28), ('long_lit', 24)),
                     evidence_hook=hook, **tp)
     ev = hook['ev']
     cp = hook_p.get('coverage', {})
@@ -653,14 +709,15 @@ def task_pair(pl):
     N = pl['N']
     while True:
         try:
-            r = joint.explore_pair(progA, progB, pl['d'], N, pl['start'], budget=pl.get('budget'), release=pl.get('release', False))
+            r = joint.explore_pair(progA, progB, pl['d'], N, pl['start'], budget=pl.get('budget'), release=pl.get('release', False),
+                                   partial=pl.get('partial', False))
             break
         except EngineError as e:
             if 'time budget' in str(e) and N > pl.get('Nmin', 3):
                 N -= 1 if N <= 6 else 2
                 continue
             raise
-    r.update(id=pl['d'].id, pair=pl['pair'], start=pl['start'], N=N)
+    r.update(id=pl['d'].id, pair=pl['pair'], start=pl['start'], N=N, partial=pl.get('partial', False))
     return r
 
 
@@ -681,11 +738,11 @@ def task_twins(pl):
     return r
 
 
-def native_stream(P, name, defs, d, cfg, data, start, profile='dev'):
+def native_stream(P, name, defs, d, cfg, data, start, profile='dev', partial=False):
     key = (name, cfg, profile)
     if key not in _native:
         _native[key] = pipeline.build_native(name, defs, cfg, profile)
-    return pipeline.native_run(_native[key], d.id, data, start=start)
+    return pipeline.native_run(_native[key], d.id, data, start=start, partial=partial)
 
 
 def joint_report(prop, tier, seed, results, ev, confirm, n_defs, n_cfg, explanation, extra_cov=None):
@@ -769,7 +826,7 @@ def c06(tier, seed):
     tp = tier_params(tier)
     pairs = [('tc-unsafe', 'sm-unsafe')] if tier == 'quick' else [('tc-unsafe', 'sm-unsafe'), ('tc-safe', 'sm-safe')]
     defs = [d for d in corpus_defs.all_defs() if d.expect == 'accept' and ('quick' in d.tags or tier != 'quick' or
-                                                                       d.id in ('long_loop', 'long_ident', 'long_float', 'long_skip', 'neg_loop_bytes'))]
+                                                                       d.id in ('long_loop', 'long_ident', 'long_float', 'long_skip', 'long_lit', 'neg_loop_bytes'))]
     cfgs = sorted({c for p in pairs for c in p})
     P = prepare(defs, cfgs, 'lex-C06')
     payloads = []
@@ -778,9 +835,19 @@ def c06(tier, seed):
             for s in tp['starts']:
                 payloads.append(dict(key=f'{d.id}/{a}~{b}/{s}', d=d, mirA=P.progs[(a, 'dev')], mirB=P.progs[(b, 'dev')],
                                      pair=(a, b), N=tp['N'], start=s, budget=tp['budget']))
+    # partial lexers (new_partial over a symbolic prefix): the two generators must also agree on when to return None
+    # at the end of a prefix; looping, look-around and skip-carrying definitions, two start positions
+    part_defs = [d for d in P.usable if ('loop' in d.tags or 'look' in d.tags or d.skips) and 'long' not in d.tags]
+    if tier == 'quick':
+        part_defs = [d for d in part_defs if 'quick' in d.tags]
+    for d in part_defs:
+        a, b = pairs[0]
+        for s in (0, 1) if tier == 'quick' else (0, 1, 3):
+            payloads.append(dict(key=f'{d.id}/{a}~{b}/partial{s}', d=d, mirA=P.progs[(a, 'dev')], mirB=P.progs[(b, 'dev')],
+                                 pair=(a, b), N=tp['N'], start=s, budget=tp['budget'], partial=True))
     # long runs (one next() from 0 over 20-24 symbolic bytes): the 8/16-byte blocks of the fast loops in both generators
-    long_pairs = (('long_loop', 24), ('long_ident', 20), ('long_float', 20), ('long_skip', 20), ('neg_loop_bytes', 20)) if tier == 'quick' else \
-        (('long_loop', 40), ('long_ident', 28), ('long_float', 20), ('long_skip', 28), ('neg_loop_bytes', 28), ('kw_ident', 17))
+    long_pairs = (('long_loop', 24), ('long_ident', 20), ('long_float', 20), ('long_skip', 20), ('long_lit', 20), ('neg_loop_bytes', 20)) if tier == 'quick' else \
+        (('long_loop', 40), ('long_ident', 28), ('long_float', 20), ('long_skip', 28), ('long_lit', 24), ('neg_loop_bytes', 28), ('kw_ident', 17))
     for lid, ln in long_pairs:
         for d in P.usable:
             if d.id == lid:
@@ -800,9 +867,9 @@ def c06(tier, seed):
         d = [x for x in P.usable if x.id == r['id']][0]
         data = bytes(f['model']['bytes'])
         a, b = r['pair'] if r['pair'][0] != 'depth' else pairs[0]
-        ia, pa, _ = native_stream(P, 'lex-C06', P.usable, d, a, data, r['start'])
-        ib, pb, _ = native_stream(P, 'lex-C06', P.usable, d, b, data, r['start'])
-        info = {'property': 'C06', 'def': d.id, 'cfg': a, 'cfg_b': b, 'start': r['start'], 'input_hex': data.hex(),
+        ia, pa, _ = native_stream(P, 'lex-C06', P.usable, d, a, data, r['start'], partial=r.get('partial', False))
+        ib, pb, _ = native_stream(P, 'lex-C06', P.usable, d, b, data, r['start'], partial=r.get('partial', False))
+        info = {'property': 'C06', 'def': d.id, 'cfg': a, 'cfg_b': b, 'start': r['start'], 'input_hex': data.hex(), 'partial': r.get('partial', False),
                 'what': f['what'], 'native_a': ia, 'native_b': ib, 'panic_a': pa, 'panic_b': pb}
         return (ia != ib or pa != pb), info
 
@@ -880,7 +947,13 @@ def c12(tier, seed):
     base = [d for d in corpus_defs.all_defs() if d.expect == 'accept' and d.utf8 and 'cb' not in d.tags
             and not any(v.field for v in d.variants) and ('quick' in d.tags or 'unicode' in d.tags or tier != 'quick')]
     twins = {d.id: make_twin(d) for d in base}
-    alld = base + list(twins.values())
+    # second sentence of the property: a pattern that can match invalid UTF-8 is accepted only with utf8 = false --
+    # every such definition of the corpus must be rejected as it stands and accepted as its byte-mode twin
+    nonutf8 = [d for d in corpus_defs.all_defs() if d.expect == 'reject' and 'nonutf8' in d.tags and d.utf8]
+    ntwins = {d.id: make_twin(d) for d in nonutf8}
+    for t in ntwins.values():
+        t.expect = 'accept'
+    alld = base + list(twins.values()) + nonutf8 + list(ntwins.values())
     cfgs = ['tc-unsafe'] if tier == 'quick' else ['tc-unsafe', 'sm-safe']
     P = prepare(alld, cfgs, 'lex-C12')
     usable = {d.id for d in P.usable}
@@ -920,8 +993,16 @@ def c12(tier, seed):
         if (d.id in usable) != (twins[d.id].id in usable):
             rc = max(rc, known_or_violation('C12', {'definition': d.id, 'what': 'acceptance'},
                                             f'{d.id}: accepted in one mode only', {'property': 'C12', 'def': d.id}, ev, 'acc-' + d.id))
+    for d in nonutf8:
+        vs, vb = P.verdicts[d.id]['status'], P.verdicts[ntwins[d.id].id]['status']
+        if vs == 'accepted' or vb != 'accepted':
+            rc = max(rc, known_or_violation('C12', {'definition': d.id, 'what': 'non-utf8 acceptance'},
+                                            f'{d.id}: a pattern that can match invalid UTF-8 is {vs} in str mode and {vb} with utf8 = false '
+                                            f'(expected: rejected / accepted)', {'property': 'C12', 'def': d.id, 'str_mode': vs,
+                                                                                 'byte_mode': vb, 'source': corpus.render_enum(d)}, ev, 'nonutf8-' + d.id))
+    ev.coverage['non_utf8_definitions_checked'] = [d.id for d in nonutf8]
     ev.write()
-    log(f'C12 {tier}: {ev.coverage["evaluations"]} joint leaves over {len(base)} twin pairs, rc={rc}')
+    log(f'C12 {tier}: {ev.coverage["evaluations"]} joint leaves over {len(base)} twin pairs, {len(nonutf8)} non-UTF-8 definitions, rc={rc}')
     return rc
 
 
@@ -967,9 +1048,38 @@ def partial_post(P, d, f, r, info):
         info['confirmation'] = 'native partial lexer reports span %s after None' % (nn[0][1:3] if nn else None,)
         return bool(nn) and nn[0][1] != nn[0][2]
     if 'committed' in f['what']:
-        alphabet = sorted(set(data) | {0x20, 0x61, 0x30, 0x0a})
+        # the property, literally: for some continuation of the prefix, the items committed before None followed by the
+        # items an ordinary lexer yields from the position reported at None differ from the one-shot lexing of the whole
+        # input.  (A skip that is committed in two pieces without changing any item is not a violation: it is counted, not
+        # reported.)
+        start = r['start']
+        nn = [x for x in native if x[0] == 'none']
+        resume = nn[0][1] if nn else len(data)
+        binary = native_binary(P, 'lex-C07', r['cfg'], r['profile'])
+        alphabet = sorted(set(data) | {0x20, 0x61, 0x30, 0x0a, 0x2f, 0x3b})
         import itertools as it
-        for n in (1, 2):
+
+        def exp_items(full):
+            out, t = [], start
+            while True:
+                st = conc.step(full, t)
+                if st[0] == 'none':
+                    return out
+                if st[0] == 'item':
+                    if st[1] != ('skip',):
+                        out.append(('ok', st[2], st[3], d.variants[st[1][1]].name))
+                    t = st[3]
+                else:
+                    out.append(('err', st[1], st[2], None))
+                    t = st[2]
+
+        def same(g, e):
+            if g[0] != e[0] or (g[1], g[2]) != (e[1], e[2]):
+                return False
+            return g[0] != 'ok' or g[3] == e[3] or g[3].startswith(e[3] + '(')
+
+        tried = 0
+        for n in (0, 1, 2):
             for ext in it.product(alphabet, repeat=n):
                 full = data + bytes(ext)
                 if d.utf8:
@@ -977,17 +1087,17 @@ def partial_post(P, d, f, r, info):
                         full.decode('utf8')
                     except UnicodeDecodeError:
                         continue
-                exp = [e for e in conc.tokens(full) if not (e[0] == 'item' and e[1] == ('skip',))]
-                for g, e in zip(committed, exp):
-                    gs = (g[1], g[2])
-                    es = (e[2], e[3]) if e[0] == 'item' else (e[1], e[2])
-                    samevar = True
-                    if g[0] == 'ok' and e[0] == 'item' and e[1][0] == 'variant':
-                        vn = d.variants[e[1][1]].name
-                        samevar = g[3] == vn or g[3].startswith(vn + '(')
-                    if gs != es or (g[0] == 'ok') != (e[0] == 'item') or not samevar:
-                        info['confirmation'] = f'continuation {bytes(ext)!r} changes the committed item {g} into {e}'
-                        return True
+                exp = exp_items(full)
+                rest, rp, _ = pipeline.native_run(binary, d.id, full, partial=False, start=resume)
+                tried += 1
+                got = committed + [x for x in (rest or []) if x[0] != 'none']
+                if rp or len(got) != len(exp) or any(not same(g, e) for g, e in zip(got, exp)):
+                    info['confirmation'] = (f'continuation {bytes(ext)!r}: items committed by the partial lexer {committed} + ordinary lexing '
+                                            f'from the position reported at None ({resume}) = {got[:8]}, one-shot lexing gives {exp[:8]}')
+                    return True
+        info['confirmation'] = f'no continuation of <= 2 bytes (of {tried} tried) changes the item stream'
+        if ' committed skip ' in f['what']:
+            return 'benign'
         return False
     return None
 
@@ -997,7 +1107,7 @@ def c07(tier, seed):
     sel = sel_for(tier, 'look')
     return lex_family('C07', tier, seed, relevant={'C07', 'C01', 'C02', 'C03'}, select=lambda ds: [d for d in sel(ds)], name='lex',
                       partial=True, post=partial_post,
-                      long_defs=(('long_ident', 20), ('long_float', 20), ('long_skip', 20), ('long_loop', 24)) if tier == 'quick' else (('long_ident', 28), ('long_float', 20), ('long_skip', 28), ('long_loop', 40)),
+                      long_defs=(('long_ident', 20), ('long_float', 20), ('long_skip', 20), ('long_lit', 20), ('long_loop', 24)) if tier == 'quick' else (('long_ident', 28), ('long_float', 20), ('long_skip', 28), ('long_lit', 24), ('long_loop', 40)),
                       rule='one case = one leaf of next() on a partial lexer over a symbolic prefix (bytes and length symbolic); '
                            'non-trivial = anything but the immediate None on empty input', **tp)
 
